@@ -404,6 +404,7 @@ package connect
 //@   tags C08, C01, C07, C09, C06
 //@   requires c != nil && dst != nil && src != nil && dst != src && owned(dst) && owned(src)
 //@   nosafety overflow
+//@   assert@call(io.LimitReader#1): 0 <= arg1 && arg1 <= 9223372036854775807 && arg1 == readMaxBytes + 1   // label: the-limit-plus-one-does-not-wrap-around   // tags: C01, C09
 //@   assigns view(dst)
 //@   ensures res == nil ==> decompOK(c.decompressors, view(src)) && view(dst) == old(view(dst)) ++ decompBy(c.decompressors, view(src))   // label: appends-decompressed-source
 //@   ensures res == nil && readMaxBytes > 0 ==> |decompBy(c.decompressors, view(src))| <= readMaxBytes          // label: success-implies-within-limit   // tags: C09
@@ -656,8 +657,9 @@ package connect
 //@   trigger shiftOf(y, x), fall(y, k)
 
 //@ func (*interceptorsOption).chainWith(o, current) res
-//@   tags C16, C19
+//@   tags C16, C19, C12
 //@   requires o != nil
+//@   assigns nothing
 //@   use fall_shift
 //@   ensures unfoldFall(seq(o.Interceptors), 0) && flat(res) == flat(current) ++ fall(seq(o.Interceptors), 0)        // label: appends-in-declaration-order
 //@   assert@call(newChain#2): shiftOf(seq(arg0), seq(o.Interceptors)) && seq(arg0)[0] == current && unfoldFall(seq(arg0), 0) && unfoldFall(seq(arg0), 1)   // label: argument-is-current-followed-by-the-option's-interceptors
@@ -723,18 +725,22 @@ package connect
 //@   requires config != nil
 //@   assigns fields(config), mapof(config.CompressionPools), mapvals(config.CompressionPools)
 //@   ensures flat(config.Interceptor) == old(flat(config.Interceptor)) ++ decl(o)
+//@   ensures config.Procedure == old(config.Procedure)   // label: options-never-touch-the-procedure (storedonlyin scan)
 //@ trusted func HandlerOption.applyToHandler(o, config)
 //@   requires config != nil
 //@   assigns fields(config), mapof(config.CompressionPools), mapvals(config.CompressionPools), mapof(config.Codecs), mapvals(config.Codecs)
 //@   ensures flat(config.Interceptor) == old(flat(config.Interceptor)) ++ decl(o)
+//@   ensures config.Procedure == old(config.Procedure)   // label: options-never-touch-the-procedure (storedonlyin scan)
 //@ trusted func Option.applyToClient(o, config)
 //@   requires config != nil
 //@   assigns fields(config), mapof(config.CompressionPools), mapvals(config.CompressionPools)
 //@   ensures flat(config.Interceptor) == old(flat(config.Interceptor)) ++ decl(o)
+//@   ensures config.Procedure == old(config.Procedure)   // label: options-never-touch-the-procedure (storedonlyin scan)
 //@ trusted func Option.applyToHandler(o, config)
 //@   requires config != nil
 //@   assigns fields(config), mapof(config.CompressionPools), mapvals(config.CompressionPools), mapof(config.Codecs), mapvals(config.Codecs)
 //@   ensures flat(config.Interceptor) == old(flat(config.Interceptor)) ++ decl(o)
+//@   ensures config.Procedure == old(config.Procedure)   // label: options-never-touch-the-procedure (storedonlyin scan)
 
 // A nil entry in an option list is a caller error (the call panics); it is not part of C16.
 //@ func (*optionsOption).applyToClient(o, config)
@@ -746,6 +752,7 @@ package connect
 //@   loop rangeindex:
 //@     invariant 0 - 1 <= rangeindex && rangeindex < |o.options| && unfoldDpre(seq(o.options), rangeindex + 1)
 //@     invariant flat(config.Interceptor) == old(flat(config.Interceptor)) ++ dpre(seq(o.options), rangeindex + 1)
+//@     invariant config.Procedure == old(config.Procedure)
 //@     decreases |o.options| - rangeindex
 
 //@ func (*optionsOption).applyToHandler(o, config)
@@ -757,6 +764,7 @@ package connect
 //@   loop rangeindex:
 //@     invariant 0 - 1 <= rangeindex && rangeindex < |o.options| && unfoldDpre(seq(o.options), rangeindex + 1)
 //@     invariant flat(config.Interceptor) == old(flat(config.Interceptor)) ++ dpre(seq(o.options), rangeindex + 1)
+//@     invariant config.Procedure == old(config.Procedure)
 //@     decreases |o.options| - rangeindex
 
 //@ func (*clientOptionsOption).applyToClient(o, config)
@@ -768,6 +776,7 @@ package connect
 //@   loop rangeindex:
 //@     invariant 0 - 1 <= rangeindex && rangeindex < |o.options| && unfoldDpre(seq(o.options), rangeindex + 1)
 //@     invariant flat(config.Interceptor) == old(flat(config.Interceptor)) ++ dpre(seq(o.options), rangeindex + 1)
+//@     invariant config.Procedure == old(config.Procedure)
 //@     decreases |o.options| - rangeindex
 
 //@ func (*handlerOptionsOption).applyToHandler(o, config)
@@ -779,6 +788,7 @@ package connect
 //@   loop rangeindex:
 //@     invariant 0 - 1 <= rangeindex && rangeindex < |o.options| && unfoldDpre(seq(o.options), rangeindex + 1)
 //@     invariant flat(config.Interceptor) == old(flat(config.Interceptor)) ++ dpre(seq(o.options), rangeindex + 1)
+//@     invariant config.Procedure == old(config.Procedure)
 //@     decreases |o.options| - rangeindex
 
 //@ func WithCodec(codec) res
@@ -804,24 +814,34 @@ package connect
 //@   ensures res != nil ==> asErr(res) == res
 
 // The option lists are applied left to right after the built-in defaults (which declare no interceptors).
+// Spec.Procedure is the canonical path extracted from the procedure / URL; no
+// option can change it (the field is stored in the two constructors only: scan).
+//@ storedonlyin handlerConfig.Procedure newHandlerConfig
+//@ storedonlyin clientConfig.Procedure newClientConfig
 //@ func newHandlerConfig(procedure, options) res
-//@   tags C16
+//@   tags C16, C12
+//@   ensures res.Procedure == callres("extractProtoPath", 1)   // label: the-procedure-is-the-canonical-path-of-what-was-passed   // tags: C12
+//@   assert@call(extractProtoPath#1): arg0 == procedure   // tags: C12
 //@   nosafety nil
 //@   assigns everything
 //@   ensures res != nil && flat(res.Interceptor) == dpre(seq(options), |options|)        // label: chain-is-the-flattened-option-list
 //@   loop rangeindex:
 //@     invariant 0 - 1 <= rangeindex && rangeindex < |options| && unfoldDpre(seq(options), rangeindex + 1)
 //@     invariant flat(config.Interceptor) == dpre(seq(options), rangeindex + 1)
+//@     invariant config.Procedure == callres("extractProtoPath", 1)
 //@     decreases |options| - rangeindex
 
 //@ func newClientConfig(url, options) (res, err)
-//@   tags C16
+//@   tags C16, C12
+//@   ensures err == nil ==> res.Procedure == callres("extractProtoPath", 1)   // label: the-procedure-is-the-canonical-path-of-the-url   // tags: C12
+//@   assert@call(extractProtoPath#1): arg0 == url   // tags: C12
 //@   nosafety nil
 //@   assigns everything
 //@   ensures err == nil ==> res != nil && flat(res.Interceptor) == dpre(seq(options), |options|)        // label: chain-is-the-flattened-option-list
 //@   loop rangeindex:
 //@     invariant 0 - 1 <= rangeindex && rangeindex < |options| && unfoldDpre(seq(options), rangeindex + 1)
 //@     invariant flat(config.Interceptor) == dpre(seq(options), rangeindex + 1)
+//@     invariant config.Procedure == callres("extractProtoPath", 1)
 //@     decreases |options| - rangeindex
 
 // ---------------------------------------------------------------------------
@@ -884,9 +904,9 @@ package connect
 //@   ensures !coded(err) ==> res == 2                                                                // label: uncoded-is-unknown
 
 //@ func wrapIfContextError(err) res
-//@   tags C15, C02
+//@   tags C15, C02, C11
 //@   ensures err == nil ==> res == nil
-//@   ensures coded(err) ==> res == err                                                               // label: coded-errors-pass-through
+//@   ensures coded(err) ==> res == err                                                               // label: coded-errors-pass-through-with-their-metadata
 //@   ensures err != nil && !coded(err) && Is(err, context.Canceled) ==> asErr(res) == res && codeOf(res) == 1 && (forall t ref :: {Is(res, t)} !fresh(t) ==> (Is(res, t) <==> Is(err, t)))   // label: canceled-is-coded-canceled
 //@   ensures err != nil && !coded(err) && !Is(err, context.Canceled) && Is(err, context.DeadlineExceeded) ==> asErr(res) == res && codeOf(res) == 4 && (forall t ref :: {Is(res, t)} !fresh(t) ==> (Is(res, t) <==> Is(err, t)))   // label: deadline-is-coded-deadline-exceeded
 //@   ensures err != nil && !coded(err) && !Is(err, context.Canceled) && !Is(err, context.DeadlineExceeded) ==> res == err   // label: other-errors-unchanged
@@ -1320,7 +1340,7 @@ package connect
 //@   ensures web && |contentType| >= 21 && contentType[:21] == "application/grpc-web+" ==> res == contentType[21:]
 
 //@ func (*connectHandler).NewConn(h, responseWriter, request) (conn, ok)
-//@   tags C05, C07, C08, C09
+//@   tags C05, C07, C08, C09, C01
 //@   implements protocolHandler.NewConn
 //@   requires h != nil && responseWriter != nil && request != nil && h.protocolHandlerParams.CompressionPools != nil && h.protocolHandlerParams.Codecs != nil
 //@   assert@call(negotiateCompression#1): arg0 == h.protocolHandlerParams.CompressionPools && (h.protocolHandlerParams.Spec.StreamType == 0 ==> arg1 == hget(request.Header, "Content-Encoding") && arg2 == hget(request.Header, "Accept-Encoding")) && (h.protocolHandlerParams.Spec.StreamType != 0 ==> arg1 == hget(request.Header, "Connect-Content-Encoding") && arg2 == hget(request.Header, "Connect-Accept-Encoding"))   // label: negotiation-reads-the-request-encoding-and-the-accept-list-from-their-headers   // tags: C08, C07
@@ -1328,12 +1348,12 @@ package connect
 //@   ensures callres("negotiateCompression", 1, 2) != nil ==> !ok && called("handlerConnCloser.Close", 1)                 // label: failed-negotiation-closes-the-conn-with-the-error   // tags: C07, C08
 //@   ensures callres("negotiateCompression", 1, 2) == nil ==> ok && conn != nil                                            // label: successful-negotiation-yields-a-conn
 //@   assert@call(wrapHandlerConnWithCodedErrors#1): hdom(rwheader(responseWriter), "Content-Type") && hraw(rwheader(responseWriter), "Content-Type") == [hget(request.Header, "Content-Type")]   // label: content-type-echoes-the-request   // tags: C05
-//@   assert@call(wrapHandlerConnWithCodedErrors#1): typeis(arg0, "*connectStreamingHandlerConn") ==> (let c := cast(arg0, "*connectStreamingHandlerConn") in c.marshaler.envelopeWriter.compressMinBytes == h.protocolHandlerParams.CompressMinBytes && c.marshaler.envelopeWriter.writer == responseWriter && c.marshaler.envelopeWriter.bufferPool == h.protocolHandlerParams.BufferPool && c.unmarshaler.envelopeReader.readMaxBytes == h.protocolHandlerParams.ReadMaxBytes && c.unmarshaler.envelopeReader.reader == request.Body && c.unmarshaler.envelopeReader.bufferPool == h.protocolHandlerParams.BufferPool)   // label: streaming-conn-carries-the-handler's-limits-and-threshold   // tags: C07, C08, C09
+//@   assert@call(wrapHandlerConnWithCodedErrors#1): typeis(arg0, "*connectStreamingHandlerConn") ==> (let c := cast(arg0, "*connectStreamingHandlerConn") in c.marshaler.envelopeWriter.compressMinBytes == h.protocolHandlerParams.CompressMinBytes && c.marshaler.envelopeWriter.writer == responseWriter && c.marshaler.envelopeWriter.bufferPool == h.protocolHandlerParams.BufferPool && c.unmarshaler.envelopeReader.readMaxBytes == h.protocolHandlerParams.ReadMaxBytes && c.unmarshaler.envelopeReader.reader == request.Body && c.unmarshaler.envelopeReader.bufferPool == h.protocolHandlerParams.BufferPool)   // label: streaming-conn-carries-the-handler's-limits-and-threshold   // tags: C01, C07, C08, C09
 //@   assert@call(wrapHandlerConnWithCodedErrors#1): typeis(arg0, "*connectStreamingHandlerConn") && cast(arg0, "*connectStreamingHandlerConn").marshaler.envelopeWriter.compressionPool != nil ==> hdom(rwheader(responseWriter), "Connect-Content-Encoding") && hraw(rwheader(responseWriter), "Connect-Content-Encoding") == [callres("negotiateCompression", 1, 1)] && callres("negotiateCompression", 1, 1) != "identity"   // label: compressed-flag-only-with-an-encoding-header   // tags: C05, C08
-//@   assert@call(wrapHandlerConnWithCodedErrors#1): typeis(arg0, "*connectUnaryHandlerConn") ==> (let c := cast(arg0, "*connectUnaryHandlerConn") in c.marshaler.compressMinBytes == h.protocolHandlerParams.CompressMinBytes && c.unmarshaler.readMaxBytes == h.protocolHandlerParams.ReadMaxBytes && c.unmarshaler.reader == request.Body && c.marshaler.compressionName == callres("negotiateCompression", 1, 1))   // label: unary-conn-carries-the-handler's-limits-and-threshold   // tags: C07, C08, C09
+//@   assert@call(wrapHandlerConnWithCodedErrors#1): typeis(arg0, "*connectUnaryHandlerConn") ==> (let c := cast(arg0, "*connectUnaryHandlerConn") in c.marshaler.compressMinBytes == h.protocolHandlerParams.CompressMinBytes && c.unmarshaler.readMaxBytes == h.protocolHandlerParams.ReadMaxBytes && c.unmarshaler.reader == request.Body && c.marshaler.compressionName == callres("negotiateCompression", 1, 1))   // label: unary-conn-carries-the-handler's-limits-and-threshold   // tags: C01, C07, C08, C09
 
 //@ func (*grpcHandler).NewConn(g, responseWriter, request) (conn, ok)
-//@   tags C05, C07, C08, C09
+//@   tags C05, C07, C08, C09, C01
 //@   implements protocolHandler.NewConn
 //@   requires g != nil && responseWriter != nil && request != nil && g.protocolHandlerParams.CompressionPools != nil && g.protocolHandlerParams.Codecs != nil
 //@   assert@call(negotiateCompression#1): arg0 == g.protocolHandlerParams.CompressionPools && arg1 == hget(request.Header, "Grpc-Encoding") && arg2 == hget(request.Header, "Grpc-Accept-Encoding")   // label: negotiation-reads-the-request-encoding-and-the-accept-list-from-their-headers   // tags: C08, C07
@@ -1341,7 +1361,7 @@ package connect
 //@   ensures callres("negotiateCompression", 1, 2) != nil ==> !ok && called("handlerConnCloser.Close", 1)                 // label: failed-negotiation-closes-the-conn-with-the-error   // tags: C07, C08
 //@   ensures callres("negotiateCompression", 1, 2) == nil ==> ok && conn != nil                                            // label: successful-negotiation-yields-a-conn
 //@   assert@call(wrapHandlerConnWithCodedErrors#1): hdom(rwheader(responseWriter), "Content-Type") && hraw(rwheader(responseWriter), "Content-Type") == [hget(request.Header, "Content-Type")]   // label: content-type-echoes-the-request   // tags: C05
-//@   assert@call(wrapHandlerConnWithCodedErrors#1): let c := cast(arg0, "*grpcHandlerConn") in c.marshaler.envelopeWriter.compressMinBytes == g.protocolHandlerParams.CompressMinBytes && c.marshaler.envelopeWriter.writer == responseWriter && c.unmarshaler.envelopeReader.readMaxBytes == g.protocolHandlerParams.ReadMaxBytes && c.unmarshaler.envelopeReader.reader == request.Body && c.web == g.web && c.unmarshaler.web == g.web   // label: conn-carries-the-handler's-limits-and-threshold   // tags: C07, C08, C09
+//@   assert@call(wrapHandlerConnWithCodedErrors#1): let c := cast(arg0, "*grpcHandlerConn") in c.marshaler.envelopeWriter.compressMinBytes == g.protocolHandlerParams.CompressMinBytes && c.marshaler.envelopeWriter.writer == responseWriter && c.unmarshaler.envelopeReader.readMaxBytes == g.protocolHandlerParams.ReadMaxBytes && c.unmarshaler.envelopeReader.reader == request.Body && c.web == g.web && c.unmarshaler.web == g.web   // label: conn-carries-the-handler's-limits-and-threshold   // tags: C01, C07, C08, C09
 //@   assert@call(wrapHandlerConnWithCodedErrors#1): cast(arg0, "*grpcHandlerConn").marshaler.envelopeWriter.compressionPool != nil ==> hdom(rwheader(responseWriter), "Grpc-Encoding") && hraw(rwheader(responseWriter), "Grpc-Encoding") == [callres("negotiateCompression", 1, 1)] && callres("negotiateCompression", 1, 1) != "identity"   // label: compressed-flag-only-with-an-encoding-header   // tags: C05, C08
 
 // ---------------------------------------------------------------------------
@@ -1370,10 +1390,10 @@ package connect
 //@   requires d != nil
 //@   assigns d.validateResponse
 //@ func (*connectClient).NewConn(c, ctx, spec, header) res
-//@   tags C10, C09, C08, C01
-//@   requires c != nil && ctx != nil && header != nil && c.protocolClientParams.CompressionPools != nil
-//@   assert@call(wrapClientConnWithCodedErrors#1): typeis(arg0, "*connectUnaryClientConn") ==> (let u := cast(arg0, "*connectUnaryClientConn") in u.unmarshaler.readMaxBytes == c.protocolClientParams.ReadMaxBytes && u.unmarshaler.codec == c.protocolClientParams.Codec && u.unmarshaler.bufferPool == c.protocolClientParams.BufferPool && u.unmarshaler.reader == u.duplexCall && u.marshaler.writer == u.duplexCall && u.marshaler.codec == c.protocolClientParams.Codec && u.marshaler.compressMinBytes == c.protocolClientParams.CompressMinBytes && u.marshaler.compressionName == c.protocolClientParams.CompressionName && u.marshaler.compressionPool == callres("readOnlyCompressionPools.Get", 1) && u.compressionPools == c.protocolClientParams.CompressionPools)   // label: unary-conn-carries-the-client's-codec-limit-threshold-and-compression   // tags: C09, C08, C01
-//@   assert@call(wrapClientConnWithCodedErrors#1): typeis(arg0, "*connectStreamingClientConn") ==> (let t := cast(arg0, "*connectStreamingClientConn") in t.unmarshaler.envelopeReader.readMaxBytes == c.protocolClientParams.ReadMaxBytes && t.unmarshaler.envelopeReader.codec == c.protocolClientParams.Codec && t.unmarshaler.envelopeReader.reader == t.duplexCall && t.marshaler.envelopeWriter.writer == t.duplexCall && t.marshaler.envelopeWriter.codec == c.protocolClientParams.Codec && t.marshaler.envelopeWriter.compressMinBytes == c.protocolClientParams.CompressMinBytes && t.marshaler.envelopeWriter.compressionPool == callres("readOnlyCompressionPools.Get", 2) && t.compressionPools == c.protocolClientParams.CompressionPools)   // label: streaming-conn-carries-the-client's-codec-limit-threshold-and-compression   // tags: C09, C08, C01
+//@   tags C10, C09, C08, C01, C06
+//@   requires c != nil && ctx != nil && header != nil && c.protocolClientParams.CompressionPools != nil && c.protocolClientParams.BufferPool != nil
+//@   assert@call(wrapClientConnWithCodedErrors#1): typeis(arg0, "*connectUnaryClientConn") ==> (let u := cast(arg0, "*connectUnaryClientConn") in u.unmarshaler.readMaxBytes == c.protocolClientParams.ReadMaxBytes && u.unmarshaler.codec == c.protocolClientParams.Codec && u.unmarshaler.bufferPool == c.protocolClientParams.BufferPool && u.unmarshaler.reader == u.duplexCall && u.marshaler.writer == u.duplexCall && u.marshaler.codec == c.protocolClientParams.Codec && u.marshaler.compressMinBytes == c.protocolClientParams.CompressMinBytes && u.marshaler.compressionName == c.protocolClientParams.CompressionName && u.marshaler.compressionPool == callres("readOnlyCompressionPools.Get", 1) && u.compressionPools == c.protocolClientParams.CompressionPools && u.bufferPool == c.protocolClientParams.BufferPool && u.marshaler.bufferPool == u.bufferPool)   // label: unary-conn-carries-the-client's-codec-limit-threshold-and-compression   // tags: C09, C08, C01, C06
+//@   assert@call(wrapClientConnWithCodedErrors#1): typeis(arg0, "*connectStreamingClientConn") ==> (let t := cast(arg0, "*connectStreamingClientConn") in t.unmarshaler.envelopeReader.readMaxBytes == c.protocolClientParams.ReadMaxBytes && t.unmarshaler.envelopeReader.codec == c.protocolClientParams.Codec && t.unmarshaler.envelopeReader.reader == t.duplexCall && t.marshaler.envelopeWriter.writer == t.duplexCall && t.marshaler.envelopeWriter.codec == c.protocolClientParams.Codec && t.marshaler.envelopeWriter.compressMinBytes == c.protocolClientParams.CompressMinBytes && t.marshaler.envelopeWriter.compressionPool == callres("readOnlyCompressionPools.Get", 2) && t.compressionPools == c.protocolClientParams.CompressionPools && t.bufferPool == c.protocolClientParams.BufferPool && t.marshaler.envelopeWriter.bufferPool == t.bufferPool && t.unmarshaler.envelopeReader.bufferPool == t.bufferPool)   // label: streaming-conn-carries-the-client's-codec-limit-threshold-and-compression   // tags: C09, C08, C01, C06
 //@   assert@call(readOnlyCompressionPools.Get#1): arg1 == c.protocolClientParams.CompressionName
 //@   assert@call(readOnlyCompressionPools.Get#2): arg1 == c.protocolClientParams.CompressionName
 //@   assigns everything
@@ -1382,9 +1402,9 @@ package connect
 //@   assert@call(newDuplexHTTPCall#1): callresb("context.Context.Deadline", 1, 1) && callres("time.Until", 1) / 1000000 >= 10000000000 ==> hdom(header, "Connect-Timeout-Ms") == old(hdom(header, "Connect-Timeout-Ms")) && hraw(header, "Connect-Timeout-Ms") == old(hraw(header, "Connect-Timeout-Ms"))   // label: too-large-a-timeout-is-omitted-not-truncated
 
 //@ func (*grpcClient).NewConn(g, ctx, spec, header) res
-//@   tags C10, C09, C08, C01
-//@   requires g != nil && ctx != nil && header != nil && g.protocolClientParams.CompressionPools != nil
-//@   assert@call(wrapClientConnWithCodedErrors#1): typeis(arg0, "*grpcClientConn") && (let t := cast(arg0, "*grpcClientConn") in t.unmarshaler.envelopeReader.readMaxBytes == g.protocolClientParams.ReadMaxBytes && t.unmarshaler.envelopeReader.codec == g.protocolClientParams.Codec && t.unmarshaler.envelopeReader.reader == t.duplexCall && t.unmarshaler.web == g.web && t.marshaler.envelopeWriter.writer == t.duplexCall && t.marshaler.envelopeWriter.codec == g.protocolClientParams.Codec && t.marshaler.envelopeWriter.compressMinBytes == g.protocolClientParams.CompressMinBytes && t.marshaler.envelopeWriter.compressionPool == callres("readOnlyCompressionPools.Get", 1) && t.compressionPools == g.protocolClientParams.CompressionPools && t.protobuf == g.protocolClientParams.Protobuf)   // label: conn-carries-the-client's-codec-limit-threshold-and-compression   // tags: C09, C08, C01
+//@   tags C10, C09, C08, C01, C06
+//@   requires g != nil && ctx != nil && header != nil && g.protocolClientParams.CompressionPools != nil && g.protocolClientParams.BufferPool != nil
+//@   assert@call(wrapClientConnWithCodedErrors#1): typeis(arg0, "*grpcClientConn") && (let t := cast(arg0, "*grpcClientConn") in t.unmarshaler.envelopeReader.readMaxBytes == g.protocolClientParams.ReadMaxBytes && t.unmarshaler.envelopeReader.codec == g.protocolClientParams.Codec && t.unmarshaler.envelopeReader.reader == t.duplexCall && t.unmarshaler.web == g.web && t.marshaler.envelopeWriter.writer == t.duplexCall && t.marshaler.envelopeWriter.codec == g.protocolClientParams.Codec && t.marshaler.envelopeWriter.compressMinBytes == g.protocolClientParams.CompressMinBytes && t.marshaler.envelopeWriter.compressionPool == callres("readOnlyCompressionPools.Get", 1) && t.compressionPools == g.protocolClientParams.CompressionPools && t.protobuf == g.protocolClientParams.Protobuf && t.bufferPool == g.protocolClientParams.BufferPool && t.bufferPool != nil && t.marshaler.envelopeWriter.bufferPool == t.bufferPool && t.unmarshaler.envelopeReader.bufferPool == t.bufferPool)   // label: conn-carries-the-client's-codec-limit-threshold-and-compression   // tags: C09, C08, C01, C06
 //@   assert@call(readOnlyCompressionPools.Get#1): arg1 == g.protocolClientParams.CompressionName
 //@   assigns everything
 //@   assert@call(newDuplexHTTPCall#1): !callresb("context.Context.Deadline", 1, 1) ==> hdom(header, "Grpc-Timeout") == old(hdom(header, "Grpc-Timeout")) && hraw(header, "Grpc-Timeout") == old(hraw(header, "Grpc-Timeout"))   // label: no-deadline-no-timeout-header
@@ -1513,6 +1533,8 @@ package connect
 // transport delivered it. wireTrailers(c): the trailers the peer sent.
 //@ spec wireTrailers(c ref) ref
 //@ trusted func (*duplexHTTPCall).ResponseTrailer(d) res
+//@   tags C03, C04, C06
+//@   checksafety
 //@   requires d != nil
 //@   assigns nothing
 //@   ensures res != nil
@@ -2084,3 +2106,32 @@ package connect
 //@   assigns everything
 //@   ensures res != nil && res.request != nil   // label: a-call-object-with-a-request-is-always-returned
 //@   ensures callres("http.NewRequestWithContext", 1, 1) != nil ==> res.err != nil && coded(res.err) && codeOf(res.err) == 14   // label: a-request-that-cannot-be-constructed-is-a-coded-unavailable-error
+
+// protocol_grpc.go: the request headers of a gRPC / gRPC-Web call (C05, C08)
+//@ func (*grpcClient).WriteRequestHeader(g, streamType, header)
+//@   tags C05, C08
+//@   requires g != nil && header != nil && g.protocolClientParams.Codec != nil && g.protocolClientParams.CompressionPools != nil
+//@   assigns mapof(header), mapvals(header)
+//@   ensures hdom(header, "Content-Type") && hraw(header, "Content-Type") == [callres("grpcContentTypeFromCodecName", 1)]   // label: content-type-names-protocol-and-codec
+//@   ensures hdom(header, "Accept-Encoding") && hraw(header, "Accept-Encoding") == ["identity"]   // label: no-transport-level-compression
+//@   ensures g.protocolClientParams.CompressionName != "" && g.protocolClientParams.CompressionName != "identity" ==> hdom(header, "Grpc-Encoding") && hraw(header, "Grpc-Encoding") == [g.protocolClientParams.CompressionName]   // label: request-compression-announced
+//@   ensures (g.protocolClientParams.CompressionName == "" || g.protocolClientParams.CompressionName == "identity") ==> hdom(header, "Grpc-Encoding") == old(hdom(header, "Grpc-Encoding"))   // label: no-compression-no-header
+//@   ensures !g.web ==> hdom(header, "Te") && hraw(header, "Te") == ["trailers"]   // label: grpc-asks-for-trailers
+//@   assert@call(grpcContentTypeFromCodecName#1): arg0 == g.web && arg1 == callres("Codec.Name", 1)
+
+//@ func grpcContentTypeFromCodecName(web, name) res
+//@   tags C05, C12
+//@   assigns nothing
+//@   ensures res == grpcPrefix(web) ++ name
+
+//@ func (*grpcClientConn).validateResponse(cc, response) res
+//@   tags C05, C06, C08
+//@   requires cc != nil && response != nil && cc.responseHeader != nil && cc.responseTrailer != nil && cc.compressionPools != nil && cc.bufferPool != nil && cc.protobuf != nil
+//@   assigns everything
+//@   ensures res != nil ==> asErr(res) == res && res.code != 0   // label: never-the-zero-code
+//@   ensures res == nil ==> cc.unmarshaler.envelopeReader.compressionPool == callres("readOnlyCompressionPools.Get", 1)   // label: responses-are-decoded-with-the-announced-encoding
+//@   assert@call(readOnlyCompressionPools.Get#1): arg1 == hget(response.Header, "Grpc-Encoding")   // label: decoder-chosen-from-the-grpc-encoding-header
+//@   ensures res == nil ==> cc.unmarshaler.envelopeReader.readMaxBytes == old(cc.unmarshaler.envelopeReader.readMaxBytes)   // label: keeps-the-read-limit   // tags: C09
+//@ func grpcUserAgent() res
+//@   tags C05
+//@   assigns nothing
